@@ -52,6 +52,26 @@ func c01Catalogue(ts []*vlib.Target) []struct {
 		for _, a := range []seccomp.Action{vlib.RetUserNotif, 0x00050005, 0x7ff00007, 0x12345678, 0x00050001} {
 			add(t, &seccomp.Policy{DefaultAction: vlib.RetAllow, Syscalls: []seccomp.SyscallGroup{{Names: []string{n[0]}, Action: a}, {Names: []string{n[1]}, Action: vlib.RetErrno}}})
 		}
+		// the neighbourhood of the named action words: every single-bit change of each, and every union of two of them
+		// (0x80050000 = kill_process|errno, ...), as the action of a group and as the action of the group behind it
+		var words []seccomp.Action
+		for _, a := range vlib.NamedActions {
+			for b := 0; b < 32; b++ {
+				words = append(words, a^seccomp.Action(1<<b))
+			}
+			for _, a2 := range vlib.NamedActions {
+				if a|a2 != a && a|a2 != a2 {
+					words = append(words, a|a2)
+				}
+			}
+		}
+		for k, w := range words {
+			da := vlib.NamedActions[k%len(vlib.NamedActions)]
+			if vlib.Enc(w) == vlib.Enc(da) {
+				da = vlib.NamedActions[(k+1)%len(vlib.NamedActions)]
+			}
+			add(t, &seccomp.Policy{DefaultAction: da, Syscalls: []seccomp.SyscallGroup{{Names: []string{n[2], n[11]}, Action: w}, {Names: []string{n[4]}, Action: words[(k+1)%len(words)]}}})
+		}
 		// whole table in one group, and whole table minus one
 		add(t, &seccomp.Policy{DefaultAction: vlib.RetKillProcess, Syscalls: []seccomp.SyscallGroup{{Names: append([]string{}, n...), Action: vlib.RetAllow}}})
 		add(t, &seccomp.Policy{DefaultAction: vlib.RetErrno, Syscalls: []seccomp.SyscallGroup{{Names: append([]string{}, n[1:]...), Action: vlib.RetAllow}, {Names: []string{n[0]}, Action: vlib.RetTrap}}})
